@@ -2,6 +2,7 @@
 import itertools
 
 from core import fseq, fseqs, fbool, fcells, pseq, pseqs, guarded
+import used
 
 PROP = "C10"
 RULE = ("exhaustive: every permutation p with |p|<=N for every unary op; every argument (index, value, shift) in the "
@@ -73,8 +74,56 @@ _CONTRACT = {"both": "contract_bonds", "asc": "contract_inc_bonds", "desc": "con
 
 
 # ----------------------------------------------------------------------------- implementation
+_HEAVY = [False]
+
+
+def _warm_first(p):
+    """use a permutation before the call under test: generic use (hash, comparison, abandoned occurrence listings)
+    and the neighbouring C10 operations on the SAME object (results discarded)"""
+    used.warm_perm(p, 1)
+    if not used.is_perm(p):
+        return
+    q = used.quiet
+    q(p.block_decomposition)
+    q(p.maximum_block)
+    q(p.is_simple)
+    q(p.sum_decomposition)
+    q(p.skew_decomposition)
+    q(p.is_sum_decomposable)
+    q(lambda: list(p.monotone_block_decomposition(True)))
+    q(p.monotone_quotient)
+    q(p.inverse)
+    q(lambda: p.shift_right(1))
+    q(lambda: p.shift_up(1))
+    q(lambda: p.insert(0, 0))
+    q(lambda: p.remove(0))
+    q(lambda: p * p)
+    q(lambda: p + p)
+    used.sip(lambda: iter(p.children()))
+
+
+def _UP(seq=()):
+    """Perm constructor of the heavy lines: one object per construction site of the line (used.obj), the first
+    one fully used, the others generically"""
+    seq = tuple(seq)
+    first = used.T.i == 0
+    return used.obj(("P", seq), lambda: Perm(seq), _warm_first if first else used.warm_perm)
+
+
 def impl(op, a):
-    P = Perm
+    # every line with a long argument (the random stream) and a deterministic fortieth of the short exhaustive
+    # lines are evaluated on used objects and then once more on the same objects; the others as before
+    _HEAVY[0] = len(a[0]) >= 15 or used.sel(op, a, 40) if a else False
+    if not _HEAVY[0]:
+        return _impl(op, a, Perm)
+    used.begin()
+    r1 = _impl(op, a, _UP)
+    used.T.rewind()
+    r2 = _impl(op, a, _UP)
+    return r1 if r1 == r2 else used.unstable(r1, r2)
+
+
+def _impl(op, a, P):
     if op == "dsum":
         return guarded(lambda: fseq(P(pseq(a[0])).direct_sum(*[P(q) for q in pseqs(a[1])])))
     if op == "ssum":
@@ -151,7 +200,7 @@ def impl(op, a):
     if op == "law_comp":
         def f():
             p, q, r = (P(pseq(x)) for x in a)
-            ident = P.identity(len(p))
+            ident = Perm.identity(len(p))
             outs = []
             for g in (lambda: (p * q) * r, lambda: p * (q * r), lambda: p.compose(q, r), lambda: p * ident,
                       lambda: ident * p, lambda: p * p.inverse(), lambda: p.inverse() * p,
